@@ -8,7 +8,7 @@ found by a decision procedure over the recorded linear constraints; into_iter se
 size_hint reports num_kmers, and the node iterators visit node i for i = 0..len exactly once each; the k-mer reads it relies
 on (DnaStringSlice::get_kmer remap, DnaString::get_kmer block walk for every k-mer type) return the K bases at the position.
 Added later: override table of the node iterators (differential against next())."""
-from .. import dt_seq, structural, lemmas
+from .. import dt_seq, dt_strings, structural, lemmas
 from . import common
 
 ASSUMPTIONS = ["nodes have at least K bases (num_kmers = len - K + 1 does not underflow)", "debug_assert! does not count as a guard (analysed with debug-assertions off)"]
@@ -36,3 +36,6 @@ def run(F, rep):
         rep.violated("C18.5", "fields-private", "a field of NodeKmerIter is public: %s" % vis)
     # provided methods of the node iterators that the crate overrides must agree with next()
     rep.run(dt_seq.node_iter_override_table, F, rep, "C18.9")
+    # "exactly the node's n-K+1 k-mers ... never a k-mer belonging to a neighbouring node": n is the length the packed store recorded when
+    # the node was added — for every legal base iterator, including one whose size hint is not exact (wave 10, C18-m18)
+    rep.run(dt_strings.packed_set_add, F, rep, "C18.10")
